@@ -1459,4 +1459,79 @@ theorem back_forth_needs_filter_inv :
     s.idx = 1 ∧ s.search = some "abx".toList ∧ s.text = [] ∧ availBack s = 1 ∧
     (historyForward (historyBackward s 1) 1).idx = 0 := by decide
 
+/-! ## 16. The mirror image: forward k, back k -/
+
+/-- entries available above the current one, under the filter the step will use -/
+def availFwd (s : St) : Nat :=
+  cnt (historyMatches (setHistorySearch s)) (s.idx + 1) (s.work.length - (s.idx + 1))
+
+/-- **forth_back** — `history_forward(k)` followed by `history_backward(k)` with `1 ≤ k ≤`
+    (matching entries available above) also returns to the same entry and text. -/
+theorem forth_back (s : St) (k : Int) (hk : 1 ≤ k) (hav : k ≤ (availFwd s : Int))
+    (hm : historyMatches (setHistorySearch s) s.idx = true) :
+    (historyBackward (historyForward s k) k).idx = s.idx ∧
+    (historyBackward (historyForward s k) k).work = s.work ∧
+    (historyBackward (historyForward s k) k).text = s.text ∧
+    s.idx < (historyForward s k).idx := by
+  obtain ⟨d, hd, hlt, hmd, hcnt⟩ := fwdScan_kth' (historyMatches (setHistorySearch s))
+    (s.work.length - (s.idx + 1)) (s.idx + 1) k none hk hav
+  have hf : historyForward s k =
+      (let s2 := setCursorPos (navTo (setHistorySearch s) (s.idx + 1 + d)) 0
+       setCursorPos s2 ((s2.cur : Int) + (lineAfter s2.text s2.cur).length)) := by
+    rw [historyForward_eq, hd]
+  have hst := setHistorySearch_stable s
+  have hfix : setHistorySearch (historyForward s k) = historyForward s k := by
+    apply setHistorySearch_fixed
+    rw [hf]
+    simpa using hst
+  have hmm : historyMatches (historyForward s k) = historyMatches (setHistorySearch s) := by
+    funext i
+    apply historyMatches_congr <;> rw [hf] <;> simp
+  have hidx : (historyForward s k).idx = s.idx + 1 + d := by rw [hf]; simp
+  have hwork : (historyForward s k).work = s.work := by rw [hf]; simp
+  have hb := bwdScan_kth' (historyMatches (setHistorySearch s)) d s.idx k none hcnt hm
+  have hbw := historyBackward_eq (historyForward s k) k
+  rw [hfix, hmm, hidx, hb] at hbw
+  have hI : (historyBackward (historyForward s k) k).idx = s.idx := by rw [hbw]; simp
+  have hW : (historyBackward (historyForward s k) k).work = s.work := by rw [hbw]; simp [hwork]
+  refine ⟨hI, hW, ?_, by omega⟩
+  simp [St.text, hI, hW]
+
+example : let s := run exV exS [.histBack 2]
+    s.idx = 0 ∧ availFwd s = 2 ∧ historyMatches (setHistorySearch s) s.idx = true ∧
+    (historyForward s 2).idx = 3 ∧ (historyBackward (historyForward s 2) 2).idx = 0 := by decide
+
+/-! ## 17. Key level (emacs bindings of a single-line prompt) -/
+
+theorem keyOp_appends (k : Key) : (keyOp k).appends = true ↔ k = .enter := by
+  cases k <;> simp [keyOp, Op.appends]
+
+theorem keyOp_ok (k : Key) : (keyOp k).ok := by
+  cases k <;> simp [keyOp, Op.ok]
+
+/-- one key press (with the event-loop turn that follows it) as two operations -/
+theorem keyStep_eq_run (v : Validator) (s : St) (k : Key) :
+    (keyStep v s k).1 = run v s [keyOp k, .asyncValidate] := by
+  simp [keyStep, run, step]
+
+/-- **keys_preserve_history** — no key other than Enter writes to the history; Enter appends at
+    most the text on screen. -/
+theorem key_storage (v : Validator) (s : St) (k : Key) :
+    ∃ suf, (suf = [] ∨ suf = [s.text]) ∧ (keyStep v s k).1.storage = s.storage ++ suf ∧
+      (k ≠ .enter → suf = []) := by
+  obtain ⟨suf, h1, h2, h3⟩ := step_storage v s (keyOp k)
+  refine ⟨suf, h1, ?_, ?_⟩
+  · simp only [keyStep]
+    rw [(asyncValidate_frame v _).2.2.1, h2]
+  · intro hk
+    apply h3
+    cases hb : (keyOp k).appends
+    · rfl
+    · exact absurd ((keyOp_appends k).mp hb) hk
+
+/-- the invariants hold after every key -/
+theorem inv_keyStep (v : Validator) (s : St) (k : Key) (h : Inv v s) : Inv v (keyStep v s k).1 := by
+  rw [keyStep_eq_run]
+  exact inv_run v _ s h (by intro op ho; simp at ho; rcases ho with rfl | rfl; exact keyOp_ok k; trivial)
+
 end Ptk.C14
